@@ -190,3 +190,50 @@ reg(Alg("cbldm", "partition", lambda: prt.cbldm, op="cbldm", param="k",
 
 reg(Alg("bin_completion", "pack", lambda: prtpy.packing.bin_completion,
         unmodelled=lambda case, fmt: fmt not in ("list", "array")))     # names != values: finding KF4
+
+
+def multifit_float_divergence(case, ids):
+    """multifit's binary search on the bin capacity runs in floats in the code and in exact rationals in the model (DESIGN section 3,
+    Floats).  Outside the float-exact domain the two can part: (56/5 + 84/5)/2 is 14 exactly but 13.999999999999998 in floats, so a bin
+    of sum 14 is allowed by the model and refused by the code.  Returns None when no rounding occurs on this input (then a difference
+    between model and code is a real disagreement); otherwise (float answer, exact answer), each as {"sums", "bins" of ids}:
+    transcriptions of the documented procedure, written here independently of /repo."""
+    from fractions import Fraction
+    vals, k, it = list(case["vals"]), case["p"]["k"], case["p"].get("it", 10)
+    if not vals or k < 1:
+        return None
+    s, m = sum(vals), max(vals)
+    order = sorted(range(len(vals)), key=lambda i: vals[i], reverse=True)
+
+    def ff(cap):
+        bins, sums = [[]], [0]
+        for i in order:
+            for b in range(len(bins)):
+                if sums[b] + vals[i] <= cap:
+                    bins[b].append(i); sums[b] += vals[i]
+                    break
+            else:
+                bins.append([i]); sums.append(vals[i])
+        return bins, sums
+
+    flo, fhi = max(s / k, m), max(2 * s / k, m)
+    qlo, qhi = max(Fraction(s, k), m), max(Fraction(2 * s, k), m)
+    rounded = (Fraction(flo) != qlo) or (Fraction(fhi) != qhi)
+    for _ in range(it):
+        fmid, qmid = (flo + fhi) / 2, (qlo + qhi) / 2
+        rounded = rounded or Fraction(fmid) != qmid
+        if len(ff(fmid)[0]) <= k:
+            fhi = fmid
+        else:
+            flo = fmid
+        if len(ff(qmid)[0]) <= k:
+            qhi = qmid
+        else:
+            qlo = qmid
+    if not rounded:
+        return None
+    res = []
+    for cap in (fhi, qhi):
+        bins, sums = ff(cap)
+        res.append({"sums": list(sums), "bins": [[ids[i] for i in b] for b in bins]})
+    return tuple(res)
